@@ -165,7 +165,7 @@ def replay_file(prop, cfg, path):
     out = os.path.join(ctx.scratch, "replay.txt")
     rc, o = vc.run("%s/vharness %s --replay %s --out %s" % (bindir, sub, cases, out))
     print(o)
-    rc, o = vc.run("%s %s %s" % (drv, sub, out))
+    rc, o = vc.run("%s %s %s %s" % (drv, sub, out, prop if sub == "sys" else ""))
     print(o)
     bad = ("ORACLEFAIL" in o) or ("DISAGREE" in o)
     if bad:
